@@ -6,7 +6,7 @@
    filter of Spec/RTS.v on the closed-form integrated-Wiener transition. *)
 From Coq Require Import List Arith.
 From PD Require Import Base.Field Base.Matrix Base.Solve Model.Gauss Model.Poly Model.Prior Model.Solver Spec.RTS
-  Proofs.GaussProofs Proofs.FilterProofs Proofs.PriorProofs Proofs.SolverRefine Proofs.SolverGrid Proofs.SolverRefineLin.
+  Proofs.GaussProofs Proofs.FilterProofs Proofs.PriorProofs Proofs.SolverRefine Proofs.SolverGrid Proofs.SolverRefineLin Proofs.SolverRefineBlock.
 Import ListNotations.
 
 Section C02.
@@ -105,6 +105,28 @@ Section C02.
         = option_map (map lift1)
             (ekf_grid_iso_lin q d o l (fmul (vget base2 0) f1) damp2 (st_t st) rv dts).
   Proof. exact iso_fixed_grid_is_ekf. Qed.
+
+  (* BLOCK-DIAGONAL model: one step of the uncalibrated filter is, dimension by
+     dimension, one step of the textbook (extended) Kalman filter: closed-form
+     transition with that dimension's base scale, the documented per-dimension
+     linearisation (TS0 / TS1 with the DIAGONAL Jacobian entries only) evaluated at the
+     predicted means of all dimensions, Kalman update with R = damp^2 *)
+  Theorem C02_blockdiag_filter_step_is_per_dimension_ekf :
+    forall (q d : nat) (o : @odeP F) (l : lin) (base2 : @vec F) (damp2 : F)
+           (st st' : @sstate F) (rvs : list (@normal F)) (pc : list (@cond F)) (dt : F),
+      let cf := mkCfg (mkShape BlockDiag q d) Filter CalNone l o base2 damp2 in
+      dt <> f0 -> length rvs = d ->
+      st_post st = mkPost rvs pc ->
+      (forall a, a < d -> symmetric (S q) (n_cov (bd_pred q base2 dt rvs a))) ->
+      solver_step minv cf st dt = Some st' ->
+      let t' := fadd (st_t st) dt in
+      let preds := map (bd_pred q base2 dt rvs) (seq 0 d) in
+      length (st_u st') = d /\
+      forall a, a < d ->
+        kf_update minv (S q) 1 1 (bd_H q d o l t' preds a) (bd_bias q d o l t' preds a) (noise_cov 1 damp2)
+                  (bd_pred q base2 dt rvs a)
+        = Some (nth a (st_u st') dfltN).
+  Proof. exact blockdiag_filter_step_is_per_dimension_ekf. Qed.
 End C02.
 
 Print Assumptions C02_prediction_is_kalman_prediction.
@@ -114,3 +136,4 @@ Print Assumptions C02_isotropic_ts0_filter_step_is_ekf_step.
 Print Assumptions C02_symmetry_is_invariant.
 Print Assumptions C02_isotropic_ts0_fixed_grid_is_ekf.
 Print Assumptions C02_isotropic_fixed_grid_is_extended_kalman_filter.
+Print Assumptions C02_blockdiag_filter_step_is_per_dimension_ekf.
